@@ -248,6 +248,24 @@ fn tolerances(c: &Case, unspecified: &mut Vec<&'static str>) -> HashMap<String, 
     tol
 }
 
+/// A fold wrapper that really folds (any tolerance applies) on a string inside a map key: the
+/// documented folding changes the key itself (and can make two keys equal), so there is no verdict.
+/// (A fold wrapper directly on a scalar key is transparent and exact; it only folds when another
+/// wrapper such as `Commented`, or a composite key, turns the key into a `? ` key.)
+fn fold_inside_key(c: &Case, tol: &HashMap<String, Tol>) -> bool {
+    let sites = deco::sites(&c.ty, &c.v);
+    c.decs.0.iter().any(|(p, ws)| {
+        ws.iter().any(|w| w.is_fold())
+            && sites.iter().any(|s| &s.path == p && s.in_key && s.text.as_ref().map(|t| tol.contains_key(t)).unwrap_or(false))
+            && (ws.len() > 1 || {
+                // composite key: the string is below the key node, not the key itself
+                let parent_is_map = p.len() >= 1
+                    && deco::node_at(&c.ty, &c.v, &p[..p.len() - 1]).map(|(t, x)| matches!(tygen::kind(t, x), "map")).unwrap_or(false);
+                !parent_is_map
+            })
+    })
+}
+
 /// Tolerant contents must not also occur as an untolerated string elsewhere (the tolerance is
 /// looked up by content): drop the wrappers that would make that ambiguous.
 fn make_tolerances_unambiguous(c: &mut Case) {
@@ -340,6 +358,10 @@ fn evaluate(c: &Case) -> Eval {
     }
     // R2: wrappers
     let tol = tolerances(c, &mut unspecified);
+    if fold_inside_key(c, &tol) {
+        unspecified.push("fold-wrapper-inside-a-key:folding-is-lossy(documented)");
+        return ev(Outcome::NoVerdict("fold-wrapper-inside-a-key".into()), None, unspecified);
+    }
     let text = match tygen::emit(&DSer::root(&c.ty, &c.v, &c.decs), &c.o) {
         Ok(t) => t,
         Err(Stage::Panic(p)) => return ev(Outcome::Violated("panic", p), None, unspecified),
@@ -368,7 +390,7 @@ fn evaluate(c: &Case) -> Eval {
     match tygen::read_typed(&c.ty, &t) {
         Err(st) => return ev(Outcome::Violated("typed-read-error", st.detail()), Some(text), unspecified),
         Ok(back) => {
-            if !tval_eq(&c.v.sorted_maps(), &back.sorted_maps(), &tol) {
+            if !tval_eq(&c.v, &back, &tol) {
                 return ev(Outcome::Violated("typed-data-differs", format!("{back:?}")), Some(text), unspecified);
             }
         }
@@ -509,6 +531,8 @@ fn content_class(s: &str) -> &'static str {
         "carriage-return"
     } else if s.is_empty() {
         "empty"
+    } else if s == "\n" {
+        "single-line-break"
     } else if body.is_empty() {
         "line-breaks-only"
     } else if body.split('\n').find(|l| !l.is_empty()).map(|l| l.starts_with(' ')).unwrap_or(false) {
@@ -524,29 +548,6 @@ fn content_class(s: &str) -> &'static str {
     } else {
         "single-line"
     }
-}
-
-/// Shape / option classes that C13 reports on the bare value already; a wrapper can expose them on
-/// a value whose bare form happened to be laid out safely (e.g. a literal string forced inside a
-/// tuple variant). They get their own `exposes-C13-class` signatures.
-fn c13_class(min: &Case) -> Option<String> {
-    // `Commented` (a tuple struct for the emitter) on a key turns a scalar key into a `? ` key
-    let sites = deco::sites(&min.ty, &min.v);
-    let is_key = |p: &Path| p.last().map(|l| l % 2 == 0).unwrap_or(false)
-        && deco::node_at(&min.ty, &min.v, &p[..p.len() - 1]).map(|(t, x)| matches!(tygen::kind(t, x), "map")).unwrap_or(false);
-    if min.decs.0.iter().any(|(p, ws)| is_key(p) && ws.iter().any(|w| matches!(w, Wrap::Commented(_)))) && sites.iter().any(|s| s.in_key) {
-        return Some("complex-key".into());
-    }
-    if let Some(c) = tygen::c13_shape_class(&min.ty, &min.v) {
-        return Some(c.to_string());
-    }
-    if min.o.indent != 2 {
-        return Some(if min.o.indent < 2 { "indent_step<2".into() } else { "indent_step>2".into() });
-    }
-    if min.o.compact_list_indent {
-        return Some("compact_list_indent".into());
-    }
-    None
 }
 
 /// Signature of the minimal case.
@@ -628,11 +629,17 @@ fn signature(min: &Case, effect: &str) -> String {
     if only_block && content == ["empty"] {
         return "C20:block-string-wrapper:empty-string-reads-back-as-none".into();
     }
-    if only_block && content == ["line-breaks-only"] {
-        return "C20:block-string-wrapper:string-of-line-breaks-only".into();
+    // a fold wrapper clips a string of line breaks to the empty string (documented clip chomping);
+    // what is then observed is the empty block scalar read as `None`
+    if names == ["Fold"] && (content == ["line-breaks-only"] || content == ["single-line-break"]) && effect == "typed-data-differs" {
+        return "C20:block-string-wrapper:empty-string-reads-back-as-none".into();
     }
-    if let Some(c) = c13_class(min) {
-        return format!("C20:exposes-C13-class:{c}");
+    let block_or_comment = names.iter().any(|n| *n == "Lit" || *n == "Fold") && names.iter().all(|n| *n == "Lit" || *n == "Fold" || *n == "Commented");
+    if block_or_comment && content == ["single-line-break"] {
+        return "C20:block-string-wrapper:single-line-break-only".into();
+    }
+    if block_or_comment && content == ["line-breaks-only"] {
+        return "C20:block-string-wrapper:string-of-line-breaks-only".into();
     }
     let mut trig: Vec<String> = Vec::new();
     if !comment_classes.is_empty() {
@@ -778,11 +785,7 @@ fn random_opt(rng: &mut Rng) -> Opt {
     if rng.chance(1, 4) {
         return Opt::default();
     }
-    // yaml_12 is left to C13 most of the time (it only adds the directive)
-    let mut bits = rng.below(128) as u8;
-    if rng.chance(3, 4) {
-        bits &= !(1 << 5);
-    }
+    let bits = rng.below(128) as u8;
     let mut o = Opt::from_bits(bits, *rng.pick(&[2usize, 2, 2, 4, 1, 3, 8]));
     if rng.chance(1, 2) {
         o.min_fold_chars = *rng.pick(&[0usize, 8, 64]);
@@ -853,8 +856,9 @@ fn is_clean(ty: &Ty, v: &TVal) -> bool {
 fn random_case(rng: &mut Rng, atoms: &[(&'static str, String)], lines: &[String]) -> Option<Case> {
     let depth = rng.range(1, 5);
     let cfg = TyCfg { nullable_in_option: false, defaults: false, deny_unknown: false, bytes: false, floats: true };
-    // 5 of 6 cases use the clean grammar with indent_step 2, the rest the full C13 grammar and any option
-    let clean = !rng.chance(1, 6);
+    // half of the cases use a grammar without tuple structs / tuple variants / composite keys (more
+    // wrapper positions per case), the other half the full C13 grammar; any option vector
+    let clean = rng.bool();
     let t = if clean { random_clean_ty(rng, depth) } else { ty::random_ty_with(rng, depth, &cfg) };
     let v = ty::random_val(rng, &t);
     // new string contents
@@ -880,11 +884,7 @@ fn random_case(rng: &mut Rng, atoms: &[(&'static str, String)], lines: &[String]
         }
         decs.0.insert(s.path.clone(), applicable(s, rng, atoms));
     }
-    let mut o = random_opt(rng);
-    if clean {
-        o.indent = 2;
-        o.compact_list_indent = false;
-    }
+    let o = random_opt(rng);
     let mut c = Case { ty: t, v, decs, o };
     make_tolerances_unambiguous(&mut c);
     Some(c)
@@ -1056,6 +1056,7 @@ fn main() {
     .assume("the bare value under the same options must pass the C13 oracle, otherwise no verdict here (C13 reports it)")
     .assume("documented lossy behaviour is unspecified: folded interior line breaks, clip-chomping of several trailing breaks under FoldStr/FoldString, SpaceAfter around LitStr/LitString")
     .assume("a complex key inside a flow collection is rejected by the serializer (`non-scalar key`): no verdict")
+    .assume("a fold wrapper that really folds a string inside a `? ` key changes the key as documented (and may make keys equal): no verdict")
     .min_nontrivial(tier.pick(100_000, 1_000_000));
     run.finish(fin);
 }
